@@ -266,9 +266,15 @@ def bounded_small_alphabet(reg, tier, seed):
         nonlocal evals
         evals += 1
         seen.add(x)
-        c = bytes(S.zero_code_compress(x))
         ok = True
         why = ""
+        try:
+            c = bytes(S.zero_code_compress(x))
+        except Exception as ex:  # noqa
+            if len(failures) < 5:
+                failures.append({"key": "zero-coding/bounded", "clause": f"compress refused a byte string ({type(ex).__name__}: {ex}): the code is total",
+                                 "input": x.hex()[:200], "observed": repr(ex)})
+            return
         if not canon_quantified(c) or n_CS(c) != 0:
             ok, why = False, "compress output not canonical"
         try:
@@ -306,6 +312,15 @@ def bounded_small_alphabet(reg, tier, seed):
         ln = rng.choice((3, 17, 300, 1200, 0x3000 - 1, 0x3000, 0x3000 + 1, 0x3100))
         x = bytes(rng.choice((0, 0, 0, rng.randrange(256))) for _ in range(ln))
         check(x)
+    # strings in which zero-coding does not pay (isolated zeros cost a count byte each): the code grows by up to half
+    for unit, reps in ((b"A\x00", 4097), (b"A\x00", 6100), (b"\x00B", 0x17ff), (b"AB\x00", 4000), (b"\x00", 1), (b"A\x00\x00B\x00", 2400)):
+        check(unit * reps)
+    for _ in range(40 if tier == "quick" else 400):
+        ln = rng.choice((8190, 8194, 9000, 0x3000 - 60, 0x3000 - 1, 0x3000))
+        x = bytearray(rng.randrange(1, 256) for _ in range(ln))
+        for i in range(0, ln, rng.choice((2, 2, 3, 5))):
+            x[i] = 0
+        check(bytes(x))
     # the cap: adversarial continuation runs
     for k in (47, 48, 49, 97):
         for tail in (b"", b"\x05", b"\x00"):
